@@ -38,8 +38,8 @@ MAX_FAULTS = 2
 def plan(ctx):
     roots = []
 
-    def add(shape, n=None, pairs="all"):
-        roots.append({"shape": list(shape), "n": n, "pairs": pairs})
+    def add(shape, n=None, pairs="all", mode="none"):
+        roots.append({"shape": list(shape), "n": n, "pairs": pairs, "mode": mode})
 
     if ctx.quick():
         rnd = ctx.rand("plan")
@@ -53,12 +53,20 @@ def plan(ctx):
                 add(sh, pairs=1)
         add([2, 2], n=[1, 1], pairs=1)
         add([1, 2, 1], n=[1, 0], pairs=0)
+        # transactional modes (the revision writer of a file is bound to the file's / the run's transaction): a
+        # deterministic family, every single fault, one seeded second fault after each
+        for sh, mode, pairs in (([2], "file", 1), ([1, 3], "file", 0), ([2, 1, 2], "file", 1),
+                                ([1, 2], "all", 1), ([2, 1, 2], "all", 0), ([3], "all", 1)):
+            add(sh, pairs=pairs, mode=mode)
         return roots
     for sh in L.all_shapes() + [[0], [0, 1], [1, 0], [1, 0, 1], [0, 0, 2], [2, 0, 2]]:
         add(sh)
     # apply-with-count attempts (`migrate apply 1`, then 1 or 2)
     for sh, n in (([1, 1], [1, 1]), ([2, 2], [1, 1]), ([1, 2, 1], [1, 2]), ([2, 1, 2], [1, 1]), ([3, 3, 1], [1, 2])):
         add(sh, n=n)
+    for mode in ("file", "all"):
+        for sh in L.all_shapes() + [[1, 0, 1], [0, 2]]:
+            add(sh, mode=mode, pairs="all" if sum(sh) <= 4 else 2)
     return roots
 
 
@@ -75,7 +83,10 @@ class Node:
 
     def case(self, more=()):
         n = self.root["n"]
-        return {"shape": self.root["shape"], "faults": self.faults + list(more), "n": n if n and any(n) else None}
+        c = {"shape": self.root["shape"], "faults": self.faults + list(more), "n": n if n and any(n) else None}
+        if self.root.get("mode", "none") != "none":
+            c["mode"] = self.root["mode"]
+        return c
 
 
 class Runner:
@@ -162,7 +173,7 @@ class Runner:
         args = ["migrate", "apply"]
         if kind == "fault" and ai < len(ns) and ns[ai]:
             args.append(str(ns[ai]))
-        args += ["--dir", "file://migrations", "--url", "sqlite://" + db, "--tx-mode", "none"]
+        args += ["--dir", "file://migrations", "--url", "sqlite://" + db, "--tx-mode", case.get("mode") or "none"]
         allow_dirty = not (prev[-1]["j_after"] if prev else [])
         if allow_dirty:
             args.append("--allow-dirty")
@@ -172,6 +183,10 @@ class Runner:
         j, ev = self.read(db)
         return {"kind": kind, "fault": fault, "rc": rc, "out": (out[-1500:] + "\n" + err[-800:]), "allow_dirty": allow_dirty,
                 "x_reached": L.MISSING in out or L.MISSING in err,
+                # in a transactional mode the event row of the failed write is rolled back with everything else: the
+                # evidence that the injected write failure happened is the engine's error text in the output, or a
+                # revision write the executor started and did not finish
+                "w_marker": L.MARK_W in out or L.MARK_W in err or unfinished_write(trace),
                 "events": [e[1:] for e in ev if e[0] == ai], "revs_before": prev[-1]["revs_after"] if prev else [],
                 "revs_after": vlib.dump_db(db)["revisions"], "j_after": j,
                 "rev_before_hooks": sum(1 for t in trace if t.startswith("rev.before "))}
@@ -188,6 +203,12 @@ class Runner:
         finally:
             self.drop(d)
         return attempts
+
+
+def unfinished_write(trace):
+    began = {t.split()[1] for t in trace if t.startswith("rev.before ")}
+    ended = {t.split()[1] for t in trace if t.startswith("rev.after ")}
+    return bool(began - ended)
 
 
 def writes_of(at):
@@ -209,7 +230,7 @@ def main():
     ctx = vlib.Ctx("C09")
     run = Runner(ctx)
     broken = []
-    stats = {"cases": 0, "fired_by_shape": {}, "positions": {}, "write_faults": 0}
+    stats = {"cases": 0, "fired_by_shape": {}, "positions": {}, "write_faults": 0, "tx_fired": {}, "tx_x": {}}
 
     def verdict(case, attempts):
         with ctx.lock:
@@ -226,9 +247,15 @@ def main():
         for c in vd.classes:
             ctx.count(c)
         sig = L.shape_sig(case["shape"])
+        mode = case.get("mode") or "none"
+        ctx.count("cases:tx-mode=" + mode)
         with ctx.lock:
             stats["write_faults"] += sum(1 for f in case["faults"] if f.get("w"))
-            stats["fired_by_shape"][sig] = stats["fired_by_shape"].get(sig, 0) + len(vd.positions)
+            if mode == "none":
+                stats["fired_by_shape"][sig] = stats["fired_by_shape"].get(sig, 0) + len(vd.positions)
+            else:
+                stats["tx_fired"][mode] = stats["tx_fired"].get(mode, 0) + vd.tx_write_faults
+                stats["tx_x"][mode] = stats["tx_x"].get(mode, 0) + vd.tx_stmt_faults
             for p in vd.positions:
                 stats["positions"][p] = stats["positions"].get(p, 0) + 1
         nf = len(case["faults"])
@@ -245,7 +272,7 @@ def main():
             ctx.count("cases-where-the-store-did-not-pass-on-every-write")
         ctx.count("statement-effects-observed", sum(1 for a in attempts for e in a["events"] if e[0] == "X"))
         if not vd.inconclusive or vd.violations:
-            ctx.eval(vlib.digest(case["shape"], [(a["rc"] != 0, a["events"]) for a in attempts]), nontrivial=nf > 0)
+            ctx.eval(vlib.digest(case["shape"], mode, [(a["rc"] != 0, a["events"], a["j_after"]) for a in attempts]), nontrivial=nf > 0)
         if nf == 2 and vd.legit_repeats and not vd.violations and not vd.inconclusive:
             ctx.sample({"case": L.case_name(case), "attempts": brief(attempts), "verdict": "held"}, cap=3)
         return vd
@@ -330,7 +357,11 @@ def main():
         ctx.par(nodes, probe)
         children, first, combos_wanted = [], [], []
         for node in nodes:
-            cands = [("x", x) for x in node.xs] + [("w", k) for k in range(1, node.w + 1)] + [("xw", x) for x in node.xs]
+            cands = [("x", x) for x in node.xs] + [("w", k) for k in range(1, node.w + 1)]
+            if node.root.get("mode", "none") == "none":
+                # (in a transactional mode the writes of the attempt in which x fails are rolled back, their number is
+                # not observable, and the failure of the write that records a failure is rolled back like the rest)
+                cands += [("xw", x) for x in node.xs]
             pairs = node.root["pairs"]
             if depth >= 1 and pairs != "all":
                 rnd = ctx.rand("second", L.case_name(node.case()))
@@ -371,15 +402,22 @@ def main():
                           "not reached again when it was to fail: the injector does not fire, or the run is nondeterministic)" % (ctx.inconcl, stats["cases"]))
         for r in roots:
             sig = L.shape_sig(r["shape"])
-            if not stats["fired_by_shape"].get(sig):
+            if r["mode"] == "none" and not stats["fired_by_shape"].get(sig):
                 broken.append("%s: no revision-write fault fired" % sig)
+        for m in sorted({r["mode"] for r in roots} - {"none"}):
+            if not stats["tx_fired"].get(m) or not stats["tx_x"].get(m):
+                broken.append("--tx-mode %s: %d revision-write faults and %d statement faults were hit" % (m, stats["tx_fired"].get(m, 0), stats["tx_x"].get(m, 0)))
         for p in ("first", "mid", "last"):
             if not stats["positions"].get(p):
                 broken.append("no revision-write fault fired on a write of class '%s' (applied==0 / 0<applied<total / applied==total)" % p)
     for p, c in stats["positions"].items():
         ctx.count("write-fault-row:" + p, c)
-    shapes = sorted({L.shape_sig(r["shape"]) for r in roots})
-    ctx.finish("real CLI, --tx-mode none, SQLite file, real revision table; per case: <= 2 faulted attempts (statement fails on the engine / "
+    for m, c in stats["tx_fired"].items():
+        ctx.count("write-faults-hit:tx-mode=" + m, c)
+    for m, c in stats["tx_x"].items():
+        ctx.count("stmt-faults-hit:tx-mode=" + m, c)
+    shapes = sorted({L.shape_sig(r["shape"]) + ("" if r["mode"] == "none" else "/" + r["mode"]) for r in roots})
+    ctx.finish("real CLI, --tx-mode none (and file / all: there only what is committed is observable), SQLite file, real revision table; per case: <= 2 faulted attempts (statement fails on the engine / "
                "k-th revision write fails by trigger / both), clean run, no-op run; faults enumerated adaptively from the writes and "
                "statements observed in a fault-free run from the same state. Offline over the trigger event log, journal rows and "
                "revision rows read by python sqlite3: stored applied <= statements present; distinct statements form a prefix of canonical "
